@@ -239,8 +239,9 @@ type fake struct {
 	manifest  []byte
 	manifests map[string][]byte    // par steps: by ns/model/tag
 	cancels   []context.CancelFunc // par steps: the clients of the concurrent pulls
-	authOn    bool                 // the registry wants a bearer token of the current epoch on every request
-	epoch     int                  // tokens issued in an earlier epoch are no longer accepted
+	client2   bool
+	authOn    bool // the registry wants a bearer token of the current epoch on every request
+	epoch     int  // tokens issued in an earlier epoch are no longer accepted
 	issued    int
 	regHost   string // 127.0.0.1:p
 	cdnHost   string // localhost:p2
@@ -629,7 +630,12 @@ func (f *fake) cdn(w http.ResponseWriter, r *http.Request) {
 		return
 	}
 	a, b := rg[0], rg[1]+1
-	if a >= int64(len(blob)) || a < 0 || b <= a {
+	if a < 0 || b <= a {
+		// last byte before first byte: not a valid byte-range-spec, a server ignores the header (RFC 9110 14.1.1)
+		f.respond(w, r, key, sp, 200, nil, blob)
+		return
+	}
+	if a >= int64(len(blob)) {
 		f.respond(w, r, key, sp, 416, map[string]string{"Content-Range": fmt.Sprintf("bytes */%d", len(blob))}, nil)
 		return
 	}
@@ -766,7 +772,15 @@ func child(outf string) {
 	go http.Serve(cdnL, http.HandlerFunc(f.cdn))
 
 	var s server.Server
-	h, err := s.GenerateRoutes(nil)
+	var h http.Handler
+	if c2, _ := c["client2"].(bool); c2 {
+		// the other /api/pull endpoint: the routes as Serve builds them under OLLAMA_EXPERIMENT=client2
+		// (registry.Local.handlePull in front of the legacy handler); layers are never fetched in chunks here
+		f.client2 = true
+		h, err = server.VerifClient2Routes(&s, models, 1<<40, 1)
+	} else {
+		h, err = s.GenerateRoutes(nil)
+	}
 	if err != nil {
 		fatal(outf, "routes: "+err.Error())
 	}
@@ -898,7 +912,15 @@ type pullResult struct {
 }
 
 func doPull(ctx context.Context, apiURL, full string) pullResult {
-	body, _ := json.Marshal(map[string]any{"model": full, "insecure": true})
+	return doPullOpts(ctx, apiURL, full, nil)
+}
+
+func doPullOpts(ctx context.Context, apiURL, full string, stream *bool) pullResult {
+	rq := map[string]any{"model": full, "insecure": true}
+	if stream != nil {
+		rq["stream"] = *stream
+	}
+	body, _ := json.Marshal(rq)
 	res := pullResult{Name: full}
 	req, _ := http.NewRequestWithContext(ctx, http.MethodPost, apiURL+"/api/pull", bytes.NewReader(body))
 	req.Header.Set("Content-Type", "application/json")
@@ -1036,8 +1058,21 @@ func (f *fake) pull(apiURL, models string, st map[string]any) map[string]any {
 
 	name, _ := st["name"].(string)
 	full := f.regHost + "/" + name
-	body, _ := json.Marshal(map[string]any{"model": full, "insecure": true})
+	if f.client2 {
+		full = "http://" + full
+	}
+	reqBody := map[string]any{"model": full, "insecure": true}
+	if sv, ok := st["stream"].(bool); ok {
+		reqBody["stream"] = sv
+	}
+	body, _ := json.Marshal(reqBody)
 	res := map[string]any{"t": "pull", "name": full}
+	if ms, ok := st["timeout_ms"].(float64); ok {
+		// the client gives up after this long (the client2 handler retries retryable failures without bound)
+		var c2 context.CancelFunc
+		ctx, c2 = context.WithTimeout(ctx, time.Duration(ms)*time.Millisecond)
+		defer c2()
+	}
 	req, _ := http.NewRequestWithContext(ctx, http.MethodPost, apiURL+"/api/pull", bytes.NewReader(body))
 	req.Header.Set("Content-Type", "application/json")
 	t0 := time.Now()
@@ -1088,6 +1123,9 @@ func (f *fake) pull(apiURL, models string, st map[string]any) map[string]any {
 	res["idle"] = idle
 	res["msgs"] = msgs
 	res["error"] = perr
+	if hs, ok := res["http_status"].(int); ok && hs >= 400 {
+		success = false
+	}
 	res["success"] = success && perr == nil
 	res["wall_ms"] = time.Since(t0).Milliseconds()
 	f.mu.Lock()
